@@ -1,0 +1,144 @@
+//go:build verif
+
+package badger
+
+import (
+	"sort"
+	"time"
+
+	"github.com/dgraph-io/ristretto/v2/z"
+)
+
+// Verification hooks for the timestamp oracle (build tag verif only): thin wrappers around the
+// production methods of `oracle`, plus read-only dumps of its state.
+
+// VerifOracle is a stand-alone production oracle (newOracle + what DB.Open does with
+// n = MaxVersion()).
+type VerifOracle struct{ o *oracle }
+
+// VerifNewOracle: newOracle(opt); nextTxnTs = n; txnMark.Done(n); readMark.Done(n); nextTxnTs++.
+func VerifNewOracle(managed, detectConflicts bool, n uint64) *VerifOracle {
+	opt := Options{DetectConflicts: detectConflicts}
+	opt.managedTxns = managed
+	o := newOracle(opt)
+	o.nextTxnTs = n
+	o.txnMark.Done(o.nextTxnTs)
+	o.readMark.Done(o.nextTxnTs)
+	o.incrementNextTs()
+	return &VerifOracle{o: o}
+}
+
+// VerifOracleOf exposes the oracle of an open DB.
+func VerifOracleOf(db *DB) *VerifOracle { return &VerifOracle{o: db.orc} }
+
+func (v *VerifOracle) Stop() { v.o.Stop() }
+
+// VerifOrcTxn is a *Txn reduced to what the oracle looks at.
+type VerifOrcTxn struct{ t *Txn }
+
+// NewTxn builds the Txn value newTransaction builds (minus db), with the given read timestamp.
+func (v *VerifOracle) NewTxn(readTs uint64, update bool) *VerifOrcTxn {
+	t := &Txn{update: update, readTs: readTs}
+	if update {
+		if v.o.detectConflicts {
+			t.conflictKeys = make(map[uint64]struct{})
+		}
+		t.pendingWrites = make(map[string]*Entry)
+	}
+	return &VerifOrcTxn{t: t}
+}
+
+// ReadTs calls oracle.readTs (blocks in WaitForMark).
+func (v *VerifOracle) ReadTs() uint64 { return v.o.readTs() }
+
+// AddRead is Txn.addReadKey with the fingerprint given directly.
+func (x *VerifOrcTxn) AddRead(fp uint64) {
+	if x.t.update {
+		x.t.readsLock.Lock()
+		x.t.reads = append(x.t.reads, fp)
+		x.t.readsLock.Unlock()
+	}
+}
+
+// AddWrite is the conflict-key part of Txn.modify with the fingerprint given directly.
+func (x *VerifOrcTxn) AddWrite(fp uint64) {
+	if x.t.conflictKeys != nil {
+		x.t.conflictKeys[fp] = struct{}{}
+	}
+}
+
+func (x *VerifOrcTxn) SetCommitTs(ts uint64) { x.t.commitTs = ts }
+func (x *VerifOrcTxn) ReadTs() uint64        { return x.t.readTs }
+func (x *VerifOrcTxn) DoneRead() bool        { return x.t.doneRead }
+
+// NewCommitTs calls oracle.newCommitTs.
+func (v *VerifOracle) NewCommitTs(x *VerifOrcTxn) (uint64, bool) { return v.o.newCommitTs(x.t) }
+
+// DoneRead calls oracle.doneRead (what Txn.Discard does in normal mode).
+func (v *VerifOracle) DoneRead(x *VerifOrcTxn) { v.o.doneRead(x.t) }
+
+// DoneCommit calls oracle.doneCommit.
+func (v *VerifOracle) DoneCommit(ts uint64) { v.o.doneCommit(ts) }
+
+// SetDiscardTs calls oracle.setDiscardTs.
+func (v *VerifOracle) SetDiscardTs(ts uint64) { v.o.setDiscardTs(ts) }
+
+// Cleanup calls oracle.cleanupCommittedTransactions under o.Lock.
+func (v *VerifOracle) Cleanup() {
+	v.o.Lock()
+	defer v.o.Unlock()
+	v.o.cleanupCommittedTransactions()
+}
+
+// Barrier waits until both watermarks have processed every mark sent so far.
+func (v *VerifOracle) Barrier() {
+	v.o.readMark.VerifBarrier()
+	v.o.txnMark.VerifBarrier()
+}
+
+// BarrierTimeout is Barrier that gives up after d per watermark; false = not quiescent.
+func (v *VerifOracle) BarrierTimeout(d time.Duration) bool {
+	return v.o.readMark.VerifBarrierTimeout(d) && v.o.txnMark.VerifBarrierTimeout(d)
+}
+
+// VerifCommitted is one entry of oracle.committedTxns (conflict keys sorted).
+type VerifCommitted struct {
+	Ts   uint64
+	Keys []uint64
+}
+
+// VerifOracleState is a snapshot of the oracle's fields.
+type VerifOracleState struct {
+	NextTxnTs     uint64
+	LastCleanupTs uint64
+	DiscardTs     uint64
+	ReadDoneUntil uint64
+	TxnDoneUntil  uint64
+	Committed     []VerifCommitted
+}
+
+// State dumps the oracle under o.Lock.
+func (v *VerifOracle) State() VerifOracleState {
+	o := v.o
+	o.Lock()
+	defer o.Unlock()
+	st := VerifOracleState{
+		NextTxnTs:     o.nextTxnTs,
+		LastCleanupTs: o.lastCleanupTs,
+		DiscardTs:     o.discardTs,
+		ReadDoneUntil: o.readMark.DoneUntil(),
+		TxnDoneUntil:  o.txnMark.DoneUntil(),
+	}
+	for _, c := range o.committedTxns {
+		vc := VerifCommitted{Ts: c.ts}
+		for k := range c.conflictKeys {
+			vc.Keys = append(vc.Keys, k)
+		}
+		sort.Slice(vc.Keys, func(i, j int) bool { return vc.Keys[i] < vc.Keys[j] })
+		st.Committed = append(st.Committed, vc)
+	}
+	return st
+}
+
+// VerifFingerprint is the key fingerprint Txn.modify / Txn.addReadKey use.
+func VerifFingerprint(key []byte) uint64 { return z.MemHash(key) }
